@@ -5,6 +5,7 @@
 //! assume: the relations LDK's debug_assert!s state between the results of the scan (a delayed output of ours only on our own commitment; an HTLC resolved with no spend pending only on our commitment or after the funding spend is final; no timeout event and no preimage spend of an offered HTLC on a revoked commitment; a timeout event only for an HTLC we can time out) hold: they are kept as obligations and discharged from these preconditions
 //! trusted: R15 (deep slice): get_claimable_balances: the body of the loop over the HTLCs of our current commitment while no funding spend is confirmed, verbatim as a function of one HTLC and the five running totals (the macro holder_commitment_htlcs! that yields the HTLCs is dropped); R11 for its panic!
 //! assume: the running totals plus one HTLC amount fit u64 (amounts are bounded by the channel value; the source adds unchecked)
+//! trusted: R15 (deep slices): get_htlc_balance: the guards of the HTLCUpdate and HTLCSpendConfirmation arms of the scan and the pair the latter records, verbatim
 //! trusted: R15 (deep slice): get_htlc_balance: the predicate of the `.any(..)` in the guard of the MaturingOutput arm of the scan, verbatim as a function of one input of the maturing transaction (Txid/TxIn/descriptor skeletons)
 //! trusted: env: enum Balance, BalanceSource, HolderCommitmentTransactionBalance extracted; HTLCOutputInCommitment skeleton {offered, amount_msat, cltv_expiry, payment_hash}; HTLCSource skeleton with the three variants; payment_preimages is a stub map whose get() answers from a ghost map
 //! trusted: assume_specification for core::cmp::max / core::cmp::min (std definitions): present in every unit so that a change that introduces them is verified instead of being rejected by the tool
@@ -120,6 +121,39 @@ pub struct DelayedDescriptor { pub outpoint: DescOutPoint }
     Some(inp.previous_output.txid) == confirmed_txid && inp.previous_output.vout == htlc_commitment_tx_output_idx && descriptor
 //@with
     confirmed_txid.is_some() && inp.previous_output.vout == htlc_commitment_tx_output_idx && descriptor
+//@end
+//@extract lightning/src/chain/channelmonitor.rs :: impl ChannelMonitorImpl :: fn get_htlc_balance
+//@slice R15
+    OnchainEvent::HTLCUpdate { commitment_tx_output_idx, htlc_value_satoshis, .. } if $g:cond => {
+//@with
+    fn timeout_event_is_for_this_htlc(commitment_tx_output_idx: Option<u32>, htlc_commitment_tx_output_idx: u32) -> bool { $g }
+//@ret r
+//@ensures P C07 a-pending-htlc-time-out-event-counts-for-an-htlc-only-if-it-names-that-htlcs-own-output
+    r == (commitment_tx_output_idx == Some(htlc_commitment_tx_output_idx)),
+//@end
+//@extract lightning/src/chain/channelmonitor.rs :: impl ChannelMonitorImpl :: fn get_htlc_balance
+//@slice R15
+    OnchainEvent::HTLCSpendConfirmation { commitment_tx_output_idx, preimage, .. } if $g:cond => {
+//@with
+    fn spend_event_is_for_this_htlc(commitment_tx_output_idx: u32, htlc_commitment_tx_output_idx: u32) -> bool { $g }
+//@ret r
+//@ensures P C07 a-pending-htlc-spend-event-counts-for-an-htlc-only-if-it-names-that-htlcs-own-output
+    r == (commitment_tx_output_idx == htlc_commitment_tx_output_idx),
+//@end
+pub struct PendingEvent { pub threshold: u32 }
+impl PendingEvent { #[verifier::external_body] pub fn confirmation_threshold(&self) -> (r: u32) ensures r == self.threshold { unimplemented!() } }
+//@extract lightning/src/chain/channelmonitor.rs :: impl ChannelMonitorImpl :: fn get_htlc_balance
+//@slice R15
+    htlc_spend_pending = Some(($t:seq, $p:seq));
+//@with
+    fn what_a_pending_spend_event_says(event: &PendingEvent, preimage: &Option<PaymentPreimage>) -> (u32, bool) { ($t, $p) }
+//@ret r
+//@ensures P C07 a-pending-htlc-spend-is-remembered-with-its-own-maturity-height-and-whether-it-revealed-a-preimage
+    r.0 == event.threshold, r.1 == (*preimage is Some),
+//@mutant spend_without_preimage_remembered_as_a_preimage_claim
+    preimage.is_some()));
+//@with
+    preimage.is_none()));
 //@end
 // ---- get_claimable_balances while the channel is open: every HTLC of our current commitment is accounted for exactly once ----
 pub open spec fn rounded(htlc: &HTLCOutputInCommitment) -> u64 { if htlc.transaction_output_index is None { htlc.amount_msat } else { (htlc.amount_msat % 1000) as u64 } }
